@@ -47,6 +47,9 @@ def index_run(ctx, rule):
 def check(ctx):
     run = index_run(ctx, "R03")
     ctx.analysed_func(run)
+    from .shared import groupby_tables
+
+    ctx.run(lambda c_: groupby_tables(c_, [f_ for f_ in c_.repo.all_funcs() if f_.module.name in ("gaftools.cli.index", "gaftools.cli.view")], "R03.7"))
     info = r03_1(ctx, run)
     ctx.run(r03_2, run, info)
     ctx.run(r03_3, run, info)
@@ -296,6 +299,10 @@ def r03_7(ctx):
     rets = [r for r in walk_own(gp.node) if isinstance(r, ast.Return) and r.value is not None]
     bad = [norm(r.value) for r in rets if not (norm(r.value) == svar or norm(r.value) in ("list()", "[]"))]
     ctx.check(ok_sort and not bad, "R03.7", gp.where(), "GFA.get_path returns the contig's segments sorted numerically by their SO tag on every non-empty return (also for contigs that are not a linear path)", key_of(gp, f"get-path-sorted:{bad}"), returns=[norm(r.value) for r in rets])
+    from .shared import groupby_tables
+
+    if ctx.prop != "C03":
+        groupby_tables(ctx, [f_ for f_ in repo.all_funcs() if f_.module.name in ("gaftools.cli.index", "gaftools.cli.view")], "R03.7")
     n = 0
     for f in repo.all_funcs():
         if f.module.name not in ("gaftools.cli.index", "gaftools.cli.view"):
@@ -339,6 +346,36 @@ def r03_7(ctx):
                     src = d[-1].value if d else src
                 ok = isinstance(src, ast.Call) and isinstance(src.func, ast.Attribute) and src.func.attr == "get_path" and not st.value.generators[0].ifs
                 ctx.check(ok, "R03.7", f.where(st), "the per-contig segment table is filled, unfiltered, from GFA.get_path (SO order), not from the file-order registry", key_of(f, f"table-source:{norm(src)}"), source=norm(src))
+    # by role: a table that is handed to the converters / searched by the binary search, filled straight from the node
+    # registry (file order) and never sorted
+    for f in repo.all_funcs():
+        if f.module.name not in ("gaftools.cli.index", "gaftools.cli.view"):
+            continue
+        tables = set()
+        for c in walk_own(f.node):
+            if isinstance(c, ast.Call):
+                callee = repo.resolve_call(f, c)
+                if callee is not None and callee.module.name == "gaftools.conversion":
+                    tables |= {a.id for a in c.args if isinstance(a, ast.Name)}
+                if callee is not None and len(callee.params) == 5 and c.args and isinstance(c.args[0], ast.Subscript) and isinstance(c.args[0].value, ast.Name):
+                    tables.add(c.args[0].value.id)
+        for st in walk_own(f.node):
+            if not (isinstance(st, ast.Expr) and isinstance(st.value, ast.Call) and isinstance(st.value.func, ast.Attribute) and st.value.func.attr == "append" and isinstance(st.value.func.value, ast.Subscript) and isinstance(st.value.func.value.value, ast.Name) and st.value.func.value.value.id in tables):
+                continue
+            tname = st.value.func.value.value.id
+            loops = [l for l in walk_own(f.node) if isinstance(l, ast.For) and any(x is st for x in ast.walk(l))]
+            inner = None
+            for l in loops:
+                if inner is None or any(x is l for x in ast.walk(inner)):
+                    inner = l
+            if inner is None:
+                continue
+            it = norm(inner.iter)
+            from_registry = it.endswith(".nodes.values()") or it.endswith(".nodes") or it.endswith(".nodes.items()") or it.endswith(".nodes.keys()")
+            sorted_later = any(isinstance(c, ast.Call) and ((isinstance(c.func, ast.Attribute) and c.func.attr == "sort" and norm(c.func.value).startswith(tname)) or (isinstance(c.func, ast.Name) and c.func.id == "sorted" and c.args and tname in norm(c.args[0]))) for c in walk_own(f.node))
+            if from_registry and not sorted_later:
+                n += 1
+                ctx.violated("R03.7", f.where(st), f"the per-contig segment table `{tname}` is filled in one pass over the node registry (`{it}`: the order of the S lines in the file) and never sorted: the binary search over a contig's segments needs them in SO order, so in a graph whose S lines are not in SO order segments are not found (records missing from the index, nodes missing from converted paths)", key_of(f, f"table-source:{it}"))
     ctx.require_count("R03.7", n, 2, "gaftools/cli", "builders of per-contig segment tables")
 
 
